@@ -22,6 +22,13 @@ func genBasic(rng *rand.Rand, seed int64) *Scenario {
 	sc := &Scenario{Name: "basic", Seed: seed, StoreTTL: 3 * h, Lat: map[int]LatSpec{0: {Min: 1 * ms, Max: h / 4}},
 		WatchMin: 1 * ms, WatchMax: h / 2, End: 12 * h, Sample: h / 2,
 		Responsive: true, NoOutside: true, NoPreempt: true, FaultFree: true, MaxLat: h / 4}
+	if rng.Intn(5) == 0 {
+		// a long heartbeat interval and a store that takes more than a second per answer, still below H/2
+		h = []time.Duration{2400 * ms, 3000 * ms}[rng.Intn(2)]
+		sc.StoreTTL, sc.End, sc.Sample, sc.WatchMax = 3*h, 12*h, h/2, h/2
+		sc.Lat[0] = LatSpec{Min: 1050 * ms, Max: h/2 - 50*ms}
+		sc.MaxLat = h/2 - 50*ms
+	}
 	for i := 1; i <= n; i++ {
 		is := baseInst(i, h)
 		if rng.Intn(5) == 0 {
@@ -514,6 +521,14 @@ func genVacancy(rng *rand.Rand, seed int64) *Scenario {
 		sc.Steps = append(sc.Steps, Step{At: time.Duration(i-1) * 40 * ms, Kind: "start", Inst: i})
 	}
 	sc.WatchDrop = []float64{0, 0.3, 1}[rng.Intn(3)]
+	if rng.Intn(3) == 0 && h <= 500*ms {
+		// a store that is slow next to the heartbeat interval (answers take 55-90 % of it, still less than the 500 ms between
+		// two periodic checks): nothing in the property ties the latency to H, and the heartbeat's own time-out is a full
+		// second at least
+		sc.Lat[0] = LatSpec{Min: h * 55 / 100, Max: h * 9 / 10}
+		sc.MaxLat = h * 9 / 10
+		sc.WatchMax = h / 4
+	}
 	at := 3*h + time.Duration(rng.Int63n(int64(3*h)))
 	switch rng.Intn(4) {
 	case 0:
